@@ -8,9 +8,12 @@ func init() {
 		}
 		return Scenario{Name: "C06/bfs-" + cfg, Build: sched, Pkg: "internal", Test: "TestVerif_C06", Params: p, Shards: shards, BudgetS: budget}
 	}
+	icb := func(driver string, shards int, p string, budget float64) Scenario {
+		return Scenario{Name: "C06/icb-" + driver, Build: schedCoarse, Pkg: "internal", Test: "TestVerif_C06Icb", Params: "driver=" + driver + ",P=" + p, Shards: shards, BudgetS: budget}
+	}
 	register(&Check{
 		ID: "C06", Level: "model_checking", Engine: "E2-BFS", DesignRef: "DESIGN.md §4 C06, §3.3",
-		Technique: "explicit-state breadth-first search over API operation sequences with a virtual clock on the real instrumented Store (big steps), compared step by step with a reference map model",
+		Technique: "explicit-state breadth-first search over API operation sequences with a virtual clock on the real instrumented Store (big steps), compared step by step with a reference map model; plus stateless model checking (E1-ICB, preemption bound 2, thorough 3) of a TTL extension racing the expiry path between the timer wheel's deadline check and removeEntry",
 		LevelText: "every sequence (to the depth bound) of Set / SetWithTTL / cost-changing Set / over-cost Set / Delete / loading Get (loader cost 1 or MaxSize+1, with/without TTL) on 2-3 keys, with clock advances past deadlines with and without a timer tick, doorkeeper on/off, MaxSize 2-3, is executed on the real store in every order of its asynchronous steps; Set's result, read-back at the linearization point, the reference deadline rule and 'loss needs a reason' are checked in every drained state; right level because the failing cases need specific sequences (write after expiry before reclamation, loader cost above MaxSize, cost changes arriving reordered)",
 		LevelNote: "trusted: instrumenter + vrt models; reference model = map + deadlines + doorkeeper seen-set (no filter reset occurs within the bounds: asserted); bounded: depth 9-12 big steps, <=3 clients",
 		Rule:      "BFS over action lists (B/F/M/T/A big steps); successor = fresh store + replay + 1 action; canonical state dedup; outcome = (Set results, resident map, #notifications, max stored cost) of the drained state",
@@ -18,11 +21,13 @@ func init() {
 		Quick: []Scenario{
 			{Name: "C06/doorkeeper-reset", Build: plain, Pkg: "internal", Test: "TestVerif_C06Door", Shards: 2, BudgetS: 60},
 			{Name: "C06/doorkeeper-filter", Build: plain, Pkg: "internal", Test: "TestVerif_C06Bloom", Shards: 2, BudgetS: 60},
+			icb("X1-ttl-extended-in-expiry-window", 6, "2", 60), icb("X2-extended-then-rewritten", 6, "2", 60), icb("X3-loading-read-after-extension", 6, "2", 60),
 			mk("ttl-mix", 16, "10", 60), mk("cost", 8, "9", 60), mk("cost3", 8, "9", 60), mk("doorkeeper", 8, "9", 60), mk("loader-big", 8, "9", 60), mk("loader-costfn", 8, "9", 60), mk("loader-ttl", 8, "9", 60), mk("loader-slow", 4, "7", 60), mk("loader-huge-ttl", 4, "6", 60),
 		},
 		Thorough: []Scenario{
 			{Name: "C06/doorkeeper-reset", Build: plain, Pkg: "internal", Test: "TestVerif_C06Door", Shards: 16, BudgetS: 600},
 			{Name: "C06/doorkeeper-filter", Build: plain, Pkg: "internal", Test: "TestVerif_C06Bloom", Shards: 4, BudgetS: 600},
+			icb("X1-ttl-extended-in-expiry-window", 16, "3", 600), icb("X2-extended-then-rewritten", 16, "3", 600), icb("X3-loading-read-after-extension", 16, "3", 600),
 			{Name: "C06/bfs-cost-3clients", Build: sched, Pkg: "internal", Test: "TestVerif_C06", Params: "cfg=cost,depth=13,clients=3,ops=2", Shards: 16, BudgetS: 600},
 			{Name: "C06/bfs-ttl-mix-2clients", Build: sched, Pkg: "internal", Test: "TestVerif_C06", Params: "cfg=ttl-mix,depth=11,clients=2,ops=3", Shards: 16, BudgetS: 600},
 			mk("ttl-mix", 16, "13", 600), mk("cost", 16, "12", 600), mk("cost3", 16, "12", 600), mk("doorkeeper", 16, "12", 600), mk("loader-big", 16, "11", 600), mk("loader-costfn", 16, "11", 600), mk("loader-ttl", 16, "11", 600), mk("loader-slow", 8, "9", 600), mk("loader-huge-ttl", 8, "8", 600),
